@@ -87,6 +87,11 @@ def step (w : World) (ws : List String) : World × String :=
       let (w', items) := runCall w (.stream a p v initErr ts h)
       (w', report w' items)
     | _, _, _, _, _ => (w, "bad-op")
+  | ["release", i] => match i.toNat? with
+    | some i =>
+      let (w', items) := runCall w (.releaseOne i)
+      (w', report w' items)
+    | none => (w, "bad-op")
   | ["release"] =>
     let (w', items) := runCall w .release
     (w', report w' items)
